@@ -21,7 +21,7 @@ CHECKS = {
          "a failing stub command writes nothing (the property's assumption)"),
  "C05": ("exploration", "§C05", TECH + "scheduler-level deadlock / step-bound / panic / channel-error detection over many seeded schedules",
          "The scheduler owns every thread and channel, so a deadlock is a state with no runnable thread, a livelock a step-bound overrun, and every panic and failed send/recv is observed directly; explored over valid, failing, goal-restricted and invalid graphs, damaged state files, removed output directories and a directory at a target's path, build and clean, K schedules each.",
-         "step bound 60 000 visible operations per invocation (largest observed correct run is far below)"),
+         "step bound 150 000 + 400 per workspace file visible operations per invocation (evidence counts the invocations that came within a fifth of it)"),
  "C06": ("exploration", "§C06", TECH + "differential: same pre-state snapshot under K schedules, verdict and workspace bytes compared with the serial schedule",
          "For scenarios biased to equal contents and cleaned states (sometimes with the emptied output directories removed by the user), the same build from the same disk snapshot is executed under K schedules; verdict (error multiset) and final bytes+exec bit of every workspace file must be identical to the serial schedule's.",
          "ruler directory compared only informationally"),
